@@ -116,14 +116,14 @@ type bucketData struct {
 	lastModified time.Time
 	versionID    gofakes3.VersionID
 	deleteMarker bool
-
-	// nullVersion is true if this version was written while versioning was not
-	// enabled; only such a version may be replaced in place.
-	nullVersion bool
 	body         []byte
 	hash         []byte
 	etag         string
 	metadata     map[string]string
+
+	// nullVersion is true if this version was written while versioning was not
+	// enabled; only such a version may be replaced in place.
+	nullVersion bool
 }
 
 func (bi *bucketData) toObject(rangeRequest *gofakes3.ObjectRangeRequest, withBody bool) (obj *gofakes3.Object, err error) {
